@@ -17,6 +17,9 @@ func (w *world) add(c pb.Chunk) (ok bool, panicked string) {
 	defer func() {
 		if r := recover(); r != nil {
 			panicked = fmt.Sprintf("%v", r)
+			if i := strings.Index(panicked, "\n"); i > 0 {
+				panicked = panicked[:i] // errors carrying a stack trace: first line only
+			}
 			if len(panicked) > 300 {
 				panicked = panicked[:300]
 			}
@@ -194,6 +197,7 @@ func (w *world) deliver(c pb.Chunk, tag deliverTag) {
 		st = &mstream{from: rc.From, next: 1, src: tag.src, pure: tag.unmodified() && tag.idx == 0, files: map[string][]byte{}}
 		if tag.mainCorrupt {
 			st.poisoned = true
+			st.corrupt = tag.corrupt
 			st.unknown = !ok // the old stream may or may not have survived
 		}
 		if tag.src.degenerate {
@@ -205,6 +209,9 @@ func (w *world) deliver(c pb.Chunk, tag deliverTag) {
 		st.pure = st.pure && tag.src == st.src && tag.idx == int(rc.ChunkId) && !tag.did && !tag.binver && !tag.foreign && !tag.mainCorrupt
 		if tag.mainCorrupt {
 			st.poisoned = true
+			if st.corrupt == "" {
+				st.corrupt = tag.corrupt
+			}
 		}
 	}
 	if st != nil {
@@ -251,7 +258,7 @@ func (w *world) deliver(c pb.Chunk, tag deliverTag) {
 		if appeared || ok {
 			hdr := ""
 			if st.poisoned {
-				hdr = " [" + tag.src.corruptNote() + "]"
+				hdr = " [" + st.corrupt + "]"
 			}
 			w.ctx.Violate(Prop, "finalized-incomplete", "stream of source %d finalized (Add=%t, directory appeared=%t) although its accepted chunks are not the complete unaltered sequence%s; last chunk %s",
 				st.src.id, ok, appeared, hdr, tag.desc)
@@ -320,8 +327,6 @@ func (w *world) deliver(c pb.Chunk, tag deliverTag) {
 	}
 	w.ctx.Count("ev.finalized", 1)
 }
-
-func (s *source) corruptNote() string { return fmt.Sprintf("source %d main file %d bytes", s.id, len(s.mainData)) }
 
 func (w *world) markUnknown(k key) {
 	if st := w.streams[k]; st != nil {
